@@ -467,6 +467,79 @@ def component_stage(ctx):
 
 
 # ---------------------------------------------------------------------------------------------
+# scale stage: thousands of simultaneously active emissions with NON-dyadic rates
+# ---------------------------------------------------------------------------------------------
+def scale_case(seed, n_emis, n_comps, days=2):
+    """`n_emis` real emissions (repairable and non-repairable, persistent, long-lived, begun on or before day 0)
+    spread over `n_comps` real Components; rates are NOT dyadic (k/1000 + 1/7-like values), so neither rate x 86.4
+    nor its decimal rounding is exact.  Returns per day (n_active, {column: (float the accumulators show, exact
+    rational 86.4 x sum of the float true rates)}).  Everything is a function of the arguments (replayable)."""
+    import random as _r
+    from harness.adapters import emission as E
+    from file_processing.output_processing.output_utils import EmisInfo, TsEmisData
+
+    rng = _r.Random(seed)
+    comps, per_comp = [], [[] for _ in range(n_comps)]
+    for i in range(n_emis):
+        rate = float(Fraction(rng.randint(1, 9000), 1000) + Fraction(1, rng.choice([3, 7, 11, 13])))
+        rep = rng.random() < 0.6
+        e = E.make_emission(-rng.randint(0, 5), 400 + rng.randint(0, 50), 0, rep, False, 1, 0, rate=rate)
+        per_comp[rng.randrange(n_comps)].append(e)
+    comps = [E.make_component(ems) for ems in per_comp]
+    out = []
+    for d in range(days):
+        cur = E.SIM_START + timedelta(days=d)
+        for c in comps:
+            c.activate_emissions(cur, 0)
+        info, data = EmisInfo(), TsEmisData()
+        for c in comps:
+            c.update_emissions_state(info, data)
+        act = [e for c in comps for e in c._active_emissions]
+        k = Fraction(864, 10)
+        exact = {"emissions": k * sum(Fraction(e._rate) for e in act),
+                 "mitigable": k * sum(Fraction(e._rate) for e in act if e._repairable),
+                 "non-mitigable": k * sum(Fraction(e._rate) for e in act if not e._repairable)}
+        got = {"emissions": data.daily_emis, "mitigable": data.daily_emis_mit, "non-mitigable": data.daily_emis_non_mit}
+        out.append((data.active_leaks, len(act), {c: (got[c], exact[c]) for c in got}))
+    return out
+
+
+def scale_oracle(case_out):
+    """the day's emissions = 86.4 x summed true rates, up to what float summation itself can lose: every term
+    rate x 86.4 and every one of the n additions has a relative rounding error <= 2^-53, so
+    |float total - exact| <= 2 (n + 2) 2^-53 x exact  (about 2e-12 relative for n = 4000: some 3e-7 kg on a total
+    of 1.5e5 kg, far below the 1e-5 resolution of the output files)"""
+    raised = []
+    for d, (active_leaks, n_act, cols) in enumerate(case_out):
+        if active_leaks != n_act:
+            raised.append(("C11:accumulator:active", d, "Active Leaks differs from the number of active emission objects", None))
+        for c, (got, exact) in cols.items():
+            tol = 2 * (n_act + 2) * Fraction(1, 2 ** 53) * exact
+            err = abs(Fraction(got) - exact)
+            if err > tol:
+                raised.append(("C11:emissions:scale", d,
+                               "daily %s differ from 86.4 x the summed true rates of %d active emissions by %.3g kg "
+                               "(float summation can lose at most %.3g kg)" % (c, n_act, float(err), float(tol)), c))
+    return raised
+
+
+def scale_stage(ctx):
+    for j in range(ctx.pick(1, 6)):
+        seed = ctx.rng.randrange(1 << 30)
+        n_emis, n_comps = ctx.rng.randint(2000, 5000), ctx.rng.randint(3, 12)
+        out = scale_case(seed, n_emis, n_comps)
+        ctx.evaluations += 1
+        ctx.count("scale_cases")
+        ctx.count("scale_case_active_emissions", out[-1][1])
+        ctx.nontrivial.add(("scale", n_emis, n_comps, out[-1][1]))
+        seen = set()
+        for sig, d, what, col in scale_oracle(out):
+            if sig not in seen:
+                seen.add(sig)
+                ctx.violate(sig, what, {"scale_case": {"seed": seed, "n_emis": n_emis, "n_comps": n_comps}, "day": d, "column": col})
+
+
+# ---------------------------------------------------------------------------------------------
 # whole-run stage
 # ---------------------------------------------------------------------------------------------
 TS = {"new": "New Leaks", "active": "Active Leaks", "rep": "Leaks Repaired", "nat": "Leaks Naturally Repaired",
@@ -953,6 +1026,7 @@ def run(ctx):
     core.lean_stage(ctx, MODULE, FILE, drivers=["drv_world", "drv_emission"])
     EC.tie_stage(ctx)  # layer 3: the emission methods, translated from the current source, are the model's functions
     component_stage(ctx)
+    scale_stage(ctx)
     intermittent_witness(ctx)
     wholerun(ctx)
 
@@ -961,6 +1035,14 @@ def replay(ctx, data):
     """re-executes the stored input and re-evaluates the oracle; exit 1 iff it still fails"""
     inp = data.get("input", {})
     sig = data.get("signature")
+    if "scale_case" in inp:
+        c = inp["scale_case"]
+        raised = scale_oracle(scale_case(c["seed"], c["n_emis"], c["n_comps"]))
+        for s_, d, what, col in raised[:6]:
+            print("oracle:", s_, "day", d, "-", what)
+        still = any(s_ == sig for s_, _, _, _ in raised) if sig else bool(raised)
+        print("replay:", "still fails" if still else "no longer fails")
+        return 1 if still else 0
     if "world" in inp:
         w = inp["world"]
         world = (w[0], [([tuple(e) for e in c[0]], [tuple(e) for e in c[1]]) for c in w[1]])
